@@ -190,6 +190,8 @@ func (c *twistPoint) Mul(a *twistPoint, scalar *big.Int) {
 func (c *twistPoint) MakeAffine() {
 	// TODO: do we need to change it to constant-time implementation?
 	if c.z.IsOne() {
+		// z = 1 does not imply a valid t = z² (Neg clears it), and the Miller loop relies on t.
+		c.t.SetOne()
 		return
 	} else if c.z.IsZero() {
 		c.x.SetZero()
